@@ -565,7 +565,7 @@ class SymMixin:
         if default is not None:
             return default[0]
         run.emit("raise-site", "KeyError", self.site(node), "lookup keyed by a run-time value has no arm for a miss")
-        self.throw("KeyError", f"{k!r}", node)
+        self.throw_key(k, node)
 
     def one_of_sym(self, term, values):
         kinds = {"str" if isinstance(v, str) else "int" if isinstance(v, int) and not isinstance(v, bool) else "any" for v in values}
@@ -590,7 +590,7 @@ class SymMixin:
         if default is not None:
             return default[0]
         run.emit("raise-site", "KeyError", self.site(node), "lookup keyed by a run-time value")
-        self.throw("KeyError", f"{k!r}", node)
+        self.throw_key(k, node)
 
     # ------------------------------------------------------------------ sequences
     def sym_len(self, v: Sym, run, node):
